@@ -39,7 +39,7 @@ class Worktree:
     def __enter__(self):
         self.dir = tempfile.mkdtemp(prefix="seval_", dir="/tmp")
         os.rmdir(self.dir)
-        rc, o = sh(["git", "-C", "/repo", "worktree", "add", "-q", "--detach", self.dir, "HEAD"])
+        rc, o = sh(["git", "-C", "/repo", "worktree", "add", "-q", "--detach", self.dir, os.environ.get("EVAL_BASE", "HEAD")])
         if rc:
             raise RuntimeError("worktree: " + o)
         return self.dir
